@@ -4,10 +4,11 @@ Model of the estimation-window computation of LDAR-Sim (core Lean only, executab
 Source modelled (one Lean function per Python function):
   file_processing/output_processing/program_output_helpers.py
       calculate_prev_condition / calculate_next_condition   prevCond / nextCond
-      calculate_factor                                      Fac.num
+      calculate_factor (no longer used by the two helpers)  Fac.num
       determine_prev_date / determine_next_date,
       calculate_duration_between_dates                      the gaps inside `winsFrom`
-      calculate_end_date / calculate_start_date (repaired)  endOffset / startOffset
+      calculate_end_date / calculate_start_date (repaired,
+        commits b848134, 1d050d2)                           endOffset / startOffset
       the same two before the repairs, exact arithmetic     endOffsetOrig / startOffsetOrig
       calculate_volume_emitted                              Win.days / Win.volNum
   file_processing/output_processing/program_output.py
